@@ -28,11 +28,15 @@ package main
 //                 files) that leave their rules by next (body / function / nested
 //                 functions / match body / pattern), exit at a late element;
 //                 counts predicted in closed form
+//   schedule-through-binary  the sched-trace programs run by the real binary with 0-3 -r
+//                 selectors (commas, brackets, quotes in the selector text), several
+//                 files, JSONL, stdin: tied to the in-process run and to the model
 
 import (
 	"encoding/json"
 	"fmt"
 	"math/rand"
+	"os"
 	"sort"
 	"strconv"
 	"strings"
@@ -2040,6 +2044,136 @@ func init() {
 					Meta:   metaProg(prog, "selectors", strings.Join(sels, " | "), "files", c02FilesMeta(files)),
 					Oracle: c02TraceOracle(true)})
 			}
+		},
+	})
+}
+
+// ---------------------------------------------------------------- schedule-through-binary
+
+// selectors whose text contains commas, brackets, quotes, blanks at the ends: a command line
+// that treats a -r value as anything but ONE expression text changes the roots
+var c02BinSels = []string{
+	"$", "$.a", "$[0]", "$.list", "$[1]", "$.a.b", "$.list[0]",
+	"[$, 1]", "[$.a, $.list]", "[$[1], $[0]]", "[1,2,3]", "[[1, 2], [3, [4, 5]]]",
+	`{x: $, "y,z": [1, 2]}`, `{"a": [$, $]}.a`, `$["a"]`, `$['list']`, `["x, y", 'p,q']`,
+	`"a,b,c".split(",")`, `'k,v'`, `"[1, 2]"`,
+	"match ($ is array) { true => $[0], _ => [$, \"k,v\"] }",
+	"match ($) { 1, 2 => [$, $], _ => $ }",
+	" $ ", "$ ,", ",", "[$,", "$, $",
+}
+
+func c02BinSelectors(r *rand.Rand) []string {
+	pool := c02BinSels
+	if chance(r, 0.08) {
+		// next / exit executed by a selector: skips this root / ends the run
+		pool = []string{"$", "[$, 0]", "match ($ is array) { true => { next }, _ => [$, $] }", "match ($ is number) { true => { exit }, _ => $ }", "match ($) { 2, 3 => { next }, _ => [$] }"}
+	}
+	n := pick(r, []int{0, 1, 1, 1, 2, 2, 2, 3, 3})
+	var sels []string
+	for k := 0; k < n; k++ {
+		s := pick(r, pool)
+		for (strings.HasSuffix(s, ",") || s == "$, $") && chance(r, 0.7) {
+			s = pick(r, pool) // ill-formed selectors: a small share
+		}
+		sels = append(sels, s)
+	}
+	return sels
+}
+
+// c02Binary: the trace programs of sched-trace through the real binary, tied to the in-process
+// run of the same program, selectors and inputs.
+func c02Binary(r *rand.Rand, n int, emit func(Case)) {
+	for i := 0; i < n; i++ {
+		files, firstArr, nvals := c02Inputs(r)
+		useStdin := len(files) == 0 && chance(r, 0.8)
+		var stdin []byte
+		lib := files
+		if useStdin {
+			// no file argument: the binary reads stdin under the name <stdin>
+			one, fa, nv := c02Inputs(r)
+			for len(one) == 0 {
+				one, fa, nv = c02Inputs(r)
+			}
+			firstArr, nvals = fa, nv
+			stdin = one[0].Data
+			lib = []File{{Name: "<stdin>", Data: stdin}}
+		} else if len(files) == 0 {
+			lib = []File{{Name: "<stdin>"}} // stdin is /dev/null: one empty input
+		}
+		if len(files) >= 2 && chance(r, 0.15) {
+			files = append(files, files[0]) // the same file twice
+			lib = files
+		}
+		sels := c02BinSelectors(r)
+		g := &c02Gen{r: r, firstArr: firstArr, idxSafe: firstArr && len(sels) == 0, nvals: nvals, used: map[string]bool{}, asg: nvals > 0 && chance(r, 0.15)}
+		var p c02Prog
+		if chance(r, 0.25) {
+			// the plain trace: one rule of each kind printing everything the driver binds
+			p = c02Prog{text: "BEGIN { print \"B0\" }\nBEGINFILE { print \"BF1\", $file, $ }\n{ print \"P2\", $index, $ }\nENDFILE { print \"EF3\", $file, $ }\nEND { print \"E4\", $file }"}
+		} else {
+			p = g.program()
+		}
+		sc := &c14Scenario{dashes: strings.HasPrefix(p.text, "-") || chance(r, 0.1)}
+		var disk []CliFile
+		var names []string
+		seen := map[string]bool{}
+		for _, f := range files {
+			names = append(names, f.Name)
+			if !seen[f.Name] {
+				seen[f.Name] = true
+				disk = append(disk, CliFile{Name: f.Name, Data: f.Data})
+			}
+		}
+		argv := sc.argv(r, p.text, sels, "", "", names)
+		grp := fmt.Sprintf("bin-%d", i)
+		meta := metaProg(p.text, "argv", strings.Join(argv, " ␣ "), "selectors", strings.Join(sels, " | "), "files", c02FilesMeta(lib))
+		trace := c02TraceOracle(!p.anyBodyless)
+		nIn := len(lib)
+		emit(Case{ID: grp + "/cli", Req: CliReq(argv, stdin, useStdin, disk, ""), Fields: c14CliFields, Group: grp, Meta: meta, NonTrivial: c14NT,
+			Oracle: func(i Resp) string {
+				if w := c14Basic(i); w != "" {
+					return w
+				}
+				if i["exit"] == "" {
+					return ""
+				}
+				// the trace laws on what the binary printed
+				cl := "ok"
+				if i["exit"] != "0" {
+					cl = "runtime"
+					if strings.Contains(string(i.Bytes("stderr")), "syntax error") && len(sels) == 0 {
+						cl = "syntax"
+					}
+				}
+				return trace(Resp{"class": cl, "out": i["out"], "msg": short(string(i.Bytes("stderr")))})
+			}})
+		emit(Case{ID: grp + "/lib", Req: RunReq(p.text, sels, lib, false), Fields: []string{"class", "out"}, Group: grp, Meta: meta,
+			GroupCheck: func(first, self Resp) string {
+				if first["exit"] == "" {
+					return ""
+				}
+				return c14CliVsLib(first, self, "", nIn)
+			},
+			Oracle: func(i Resp) string {
+				if i["class"] == "syntax" && len(sels) > 0 {
+					return "" // an ill-formed selector
+				}
+				return trace(i)
+			}})
+	}
+}
+
+func init() {
+	register(Family{
+		Name: "schedule-through-binary", Prop: "C02",
+		Rule: "the trace programs of sched-trace (and the plain five-rule trace) run by the REAL BINARY with 0-3 -r selectors in every flag spelling — selectors containing commas, brackets, both quotes, match arms, blanks at the ends, a small share ill-formed — over 0-3 files (the same file twice, JSONL, stdin when no file is named): exit/stdout/stderr-present compared with the model of the wrapper; one Group per scenario ties the binary to the in-process run of the same program, selectors and files (exit 0 <=> class ok, identical stdout), which is itself compared with the model; the trace laws of sched-trace are applied to the binary's stdout",
+		Gen: func(r *rand.Rand, tier string, emit func(Case)) {
+			if os.Getenv("JQAWK_BIN") == "" {
+				emit(Case{ID: "no-binary", Req: "cli - - - -", ImplOnly: true, Oracle: c14Basic,
+					Meta: map[string]string{"problem": "env JQAWK_BIN is not set; this family runs the real binary"}})
+				return
+			}
+			c02Binary(r, tierN(tier, 1500, 12000), emit)
 		},
 	})
 }
